@@ -9,6 +9,7 @@
    What is not proved is named at the end of the file. *)
 From Coq Require Import Reals List ZArith Bool Lra Lia.
 From Coquelicot Require Import Coquelicot.
+From FJ Require Proofs.LeafInvP Proofs.RqsInvP.
 From FJ Require Import Model.Num Model.Leaves Model.Dist Proofs.RNum Proofs.LeafDerivP Proofs.DistP.
 Import ListNotations.
 Open Scope R_scope.
@@ -647,6 +648,26 @@ Theorem gumbel_flow_1d_integrates_to_one (b : bexpr R) : onto1 b ->
 Proof.
   intros Hb. apply (flow_1d_integrates_to_one FGumbel gumbel_cdf b);
     [apply gumbel_cdf_deriv | apply gumbel_cdf_minf | apply gumbel_cdf_pinf | exact Hb].
+Qed.
+
+(* The spline: a bijection of R onto R (C01) that is the identity, with log-det 0, outside its interval, so it tends to
+   -+infinity at -+infinity.  What is missing for [diffeo] is C1-ness on the whole line (see below). *)
+Theorem rqs_onto_identity_tails xp yp dv lo hi : RqsInvP.rqs_valid xp yp dv lo hi ->
+  LeafInvP.bij_on LeafInvP.allR LeafInvP.allR (rqs_fwd ROps xp yp dv lo hi) (rqs_inv ROps xp yp dv lo hi) /\
+  (forall x, ~ (lo <= x <= hi) -> rqs_fwd ROps xp yp dv lo hi x = x /\ rqs_ld_fwd ROps xp yp dv lo hi x = 0) /\
+  filterlim (rqs_fwd ROps xp yp dv lo hi) (Rbar_locally m_infty) (Rbar_locally m_infty) /\
+  filterlim (rqs_fwd ROps xp yp dv lo hi) (Rbar_locally p_infty) (Rbar_locally p_infty).
+Proof.
+  intros V. split; [apply RqsInvP.rqs_bij, V|].
+  assert (T : forall x, ~ (lo <= x <= hi) -> rqs_fwd ROps xp yp dv lo hi x = x /\ rqs_ld_fwd ROps xp yp dv lo hi x = 0).
+  { intros x Hx. split; [apply RqsInvP.rqs_fwd_g_out, Hx|].
+    unfold rqs_ld_fwd, rqs_deriv, rqs_deriv_g, where_. rewrite (RqsInvP.inb_false lo hi x Hx).
+    unfold Num.c. cbn [n_log n_ofZ ROps ROpsG]. apply ln_1. }
+  split; [exact T|]. split.
+  - apply lim_mm_intro. intros M. exists (Rmin lo M). intros x Hx.
+    pose proof (Rmin_l lo M). pose proof (Rmin_r lo M). rewrite (proj1 (T x ltac:(lra))). lra.
+  - apply lim_pp_intro. intros M. exists (Rmax hi M). intros x Hx.
+    pose proof (Rmax_l hi M). pose proof (Rmax_r hi M). rewrite (proj1 (T x ltac:(lra))). lra.
 Qed.
 
 (* NOT PROVED (C04 is partial):
